@@ -173,8 +173,27 @@ def run(ctx, deps=True):
     eng = ctx.eng
     ctx.assume("A1", "A2", "A3", "A5", "A6", "A8")
     m = VSModel(eng)
-    m.require_sigmap_loop()
     fn_site = eng.prog.site(m.sm.fi.mod, m.sm.fi.node, m.sm.fi.qualname)
+    if m.loop_base != m.sigmap:
+        # the per-entry loop runs over something made from the signature map by position
+        # (dropwhile / takewhile / islice): which entries are looked at at all depends on where they
+        # stand in the (unsigned, freely ordered) map, not on what they are
+        from . import mentions
+
+        cut = {}
+        for p in m.sm.paths:
+            for ev, _d in flatten_events(p.events):
+                if ev[0] == "call" and ev[2] in ("ext:itertools.dropwhile", "ext:itertools.takewhile", "ext:itertools.islice") and mentions(ev[3], m.sigmap):
+                    cut.setdefault(ev[1].key(), ev)
+        for k, ev in sorted(cut.items()):
+            ctx.ob("R2", "entries-selected-by-position|%s" % k, ev[1].loc(), "verify_signable runs its per-entry checks over %s of the signature map: whether an entry is looked at (or screened) depends on its position among the others, so sufficient signers can be missed and entries can bypass a per-entry test" % ev[2][4:], False)
+        lb = m.loop_base
+        if not cut and isinstance(lb, tuple) and len(lb) == 3 and lb[0] == "sub" and isinstance(lb[2], tuple) and lb[2][:2] == ("lit", "slice") and mentions(lb[1], m.sigmap):
+            ctx.ob("R2", "entries-selected-by-position|slice", fn_site.loc(), "verify_signable runs its per-entry checks over a slice of the signature map (%s): entries outside it are never looked at, wherever the sufficient signers stand" % show(lb)[:80], False)
+            cut = {"slice": None}
+        if cut:
+            return  # (the decision table below is defined for a loop over the map itself)
+    m.require_sigmap_loop()
 
     # ---- R1: nothing leaves a loop iteration
     seen = set()
@@ -317,7 +336,7 @@ def run(ctx, deps=True):
                     n += 1
                     if ev[4] is not None:
                         ctx.ob("R6", "unimported-chain|%s" % ev[1].key(), ev[1].loc(), "module chain %s: submodule %s is not imported and not in the static import closure" % (".".join(ev[2]), ev[4]), False)
-    ctx.ob("R6", "chains", "authentication.py", "%d evaluations of dotted module chains on verifier paths: all inside the static import closure" % n, not any(o.rule == "R6" and not o.ok for o in ctx.obligations))
+    ctx.ob("R6", "chains", "authentication.py", "%d evaluations of dotted module chains on verifier paths: all inside the static import closure" % n, not ctx.failed("R6"))
 
     # ---- R4: writer/reader agreement (shared with C09)
     from .signer import agreement
@@ -337,9 +356,10 @@ def _from_serializer(x):
     return "json.dumps" in x.why
 
 
-def _print_sinks(ctx):
+def _print_sinks(ctx, anchors=None, rule="R5"):
     eng = ctx.eng
-    anchors = validators(eng.prog) + VERIFIERS
+    if anchors is None:
+        anchors = validators(eng.prog) + VERIFIERS
     seen = {}
     for q in anchors:
         sm = eng.walk(q)
@@ -347,9 +367,9 @@ def _print_sinks(ctx):
             for ev, _d in flatten_events(p.events):
                 _collect_prints(ev, seen, p.facts, eng)
     for key, (site, unsafe) in sorted(seen.items()):
-        ctx.count("R5.print_sinks")
+        ctx.count(rule + ".print_sinks")
         ctx.ob(
-            "R5",
+            rule,
             "print-sink|%s" % key,
             site.loc(),
             "print in %s %s" % (site.fn, "emits only ASCII-safe text" if not unsafe else "emits untrusted text that may not be encodable on stdout: " + ", ".join(sorted(unsafe))),
